@@ -114,11 +114,19 @@ DestrProg(c) ==
   LET src == CASE c.src = 0 -> Arr(<<>>) [] c.src = 1 -> Arr(<<I(1)>>) [] c.src = 2 -> Arr(<<I(1), I(2)>>)
                [] c.src = 3 -> Arr(<<I(1), I(2), I(3)>>) [] c.src = 4 -> I(5) [] c.src = 5 -> U
                [] c.src = 6 -> C0(Fn0(<<Ret(Arr(<<I(7), I(8)>>))>>))
+               \* right-hand sides that share storage with a longer array: the padding must not reach it
+               [] c.src = 7 -> Slice(Id("a"), -1, 1) [] c.src = 8 -> Slice(Id("a"), 1, 2) [] c.src = 9 -> Slice(Id("a"), -1, 0)
+               [] c.src = 10 -> Id("b")
       names == SubSeq(<<"x", "y", "z">>, 1, c.nn)
       ids == [i \in 1..c.nn |-> Id(names[i])]
-  IN IF c.def THEN <<Destr(names, TRUE, src), Ret(Arr(ids))>>
-     ELSE [i \in 1..c.nn |-> Def(names[i], I(100 + i))] \o <<Destr(names, FALSE, src), Ret(Arr(ids))>>
-DestrIdx == [f : {"destr"}, src : 0..6, nn : 2..3, def : BOOLEAN]
+      \* a: the longer array; b: a shorter one derived from it
+      pre == IF c.src < 7 THEN <<>>
+             ELSE IF c.src < 10 THEN <<Def("a", Arr(<<I(1), I(2), I(3), I(4)>>))>>
+             ELSE <<Def("a", Arr(<<I(1), I(2), I(3), I(4)>>)), Def("b", Slice(Id("a"), 1, 2))>>
+      post == IF c.src < 7 THEN ids ELSE ids \o <<Id("a")>>
+  IN IF c.def THEN pre \o <<Destr(names, TRUE, src), Ret(Arr(post))>>
+     ELSE pre \o [i \in 1..c.nn |-> Def(names[i], I(100 + i))] \o <<Destr(names, FALSE, src), Ret(Arr(post))>>
+DestrIdx == [f : {"destr"}, src : 0..10, nn : 2..3, def : BOOLEAN]
 
 (* ---------------------------------------------------------- const/iota *)
 ConstProgs == <<
